@@ -20,7 +20,9 @@ def angles(env, tier):
     g = env.PH
     a = [0, math.pi / 2, math.pi, g[0], g[1], g[2]]
     if tier == "thorough":
-        a += [-math.pi, 2 * math.pi, 3 * math.pi, -g[2], g[0] / 7, 4 * math.pi + g[0]]
+        a += [-math.pi, 2 * math.pi, 3 * math.pi, -g[2], g[0] / 7, 4 * math.pi + g[0], -2 * math.pi - g[1],
+              1e-9, math.pi - 1e-9, 7 * math.pi / 2, -4 * math.pi, 100.0]
+        a += [k * math.pi / 8 for k in range(-16, 33)]
     return a
 
 
@@ -157,7 +159,7 @@ def run(tier, seed):
 
     acc = kernel.pmap(shard_fn, kernel.interleave(cases, kernel.NPROC))
     sw = kernel.Acc()
-    check_swaps(env, sw, 4 if tier == "quick" else 5)
+    check_swaps(env, sw, 4 if tier == "quick" else 6)
     acc.merge(sw)
     meta = {
         "rule": "every class of lightworks.qubit x angle alphabet {0, pi/2, pi, generic, negative generic, 2pi+generic"
@@ -167,7 +169,7 @@ def run(tier, seed):
                 "with s x literal gate matrix, |s|^2 in {1,1/9,1/16,1/72}; heralded gates: no amplitude outside the "
                 "qubit subspace. distinct_nontrivial = gate instances that are not a pure global phase.",
         "exhaustive": True,
-        "bounds": {"gate_instances": len(cases), "swap_mode_range": 4 if tier == "quick" else 5},
+        "bounds": {"gate_instances": len(cases), "swap_mode_range": 4 if tier == "quick" else 6},
         "assumptions": ["big-endian convention (qubit 0 = first rail pair)", "linearity: basis inputs suffice",
                         "thewalrus permanent for >=5 photons, cross-checked against Ryser at start-up"],
     }
